@@ -358,11 +358,11 @@ def main():
             ti = [l for l in t1.decode().split('\n') if l.startswith('T ')]
             tr = [l for l in t2.decode().split('\n') if l.startswith('T ')]
             first = next(((x, y) for x, y in zip(ti, tr) if x != y), (isa[-1], rtl[-1]))
-            keep = os.path.join(vlib.REPLAYS, 'C03')
-            os.makedirs(keep, exist_ok=True)
-            kb = os.path.join(keep, 'run-%d-%s' % (int(ck.t0), os.path.basename(b)))
-            shutil.copy(b, kb)
             if rundiff <= 3:
+                keep = os.path.join(vlib.REPLAYS, 'C03')
+                os.makedirs(keep, exist_ok=True)
+                kb = os.path.join(keep, 'run-%d-%s' % (int(ck.t0), os.path.basename(b)))
+                shutil.copy(b, kb)
                 ck.violation('a whole run on the Verilog design leaves the ISA trace: ISA [%s] RTL [%s]' % first,
                              {'binary': kb, 'input': list(inp), 'isa': first[0], 'rtl': first[1], 'isa_end': isa[-1], 'rtl_end': rtl[-1],
                               'replay_cmd': './check C03 --replay <this file>'}, tags={'kind': 'run'})
